@@ -20,6 +20,7 @@ def parseOp17 (t : List String) : Option R17.Op :=
   | [_, h, "tlisten", s, a, p] => do some (.tlisten (← tokNat h "h") (← tokNat s "s") (← ip a) (← p.toNat?))
   | [_, h, "uconnect", s, a, p] => do some (.uconnect (← tokNat h "h") (← tokNat s "s") (← ip a) (← p.toNat?))
   | [_, h, "tconnect", s, a, p] => do some (.tconnect (← tokNat h "h") (← tokNat s "s") (← ip a) (← p.toNat?))
+  | [_, h, "tconnectcancel", a, p] => do some (.tconnectcancel (← tokNat h "h") (← ip a) (← p.toNat?))
   | [_, h, "accept", s, ns] => do some (.accept (← tokNat h "h") (← tokNat s "s") (← tokNat ns "s"))
   | [_, h, "close", s] => do some (.close (← tokNat h "h") (← tokNat s "s"))
   | [_, h, "usend", s, a, p, tag] => do
@@ -55,28 +56,37 @@ structure CaseResult where
 def addCov (cov : List String) (tags : List String) : List String :=
   tags.foldl (fun c t => if c.contains t then c else c ++ [t]) cov
 
-/-- One C17 case: `lines` are (lineNo, text) of the case body. -/
-def runCase17 (lines : Array (Nat × String)) : CaseResult := Id.run do
+/-- One C17 case on one model variant: `lines` are (lineNo, text) of the case body. -/
+def runCase17V (lines : Array (Nat × String)) (fix : Bool) : CaseResult := Id.run do
   let mut res : CaseResult := {}
   let mut w : R17.World := {}
   let mut g : O17.G := {}
   let mut pendingOp : Option R17.Op := none
   let mut modelObs : String := ""
   let mut kLive := true
+  let mut zombie := false      -- the pending bind conflicts only with aborted orphans (model view)
+  let mut explained := 0
   for (ln, l) in lines do
     if l.startsWith "CFG" then
       let hs := parseHosts l
-      w := { fab := hs.foldl (fun f a => f.addHost a) {} }
+      w := { fab := hs.foldl (fun f a => f.addHost a fix) {} }
       g := { addrs := hs }
     else if l.startsWith "OP " then
       match parseOp17 (l.splitOn " ") with
       | some op =>
         pendingOp := some op
         if kLive then
+          zombie := match op with
+            | .ubind h _ ip port => port != 0 && R17.zombieOnlyConflict (w.fab.kernel h)
+                ((w.slots.filter (·.host == h)).map (·.fd)) ip port false
+            | .tlisten h _ ip port => port != 0 && R17.zombieOnlyConflict (w.fab.kernel h)
+                ((w.slots.filter (·.host == h)).map (·.fd)) ip port true
+            | _ => false
           let (w', o, cov) := R17.step w op
           w := w'
           modelObs := o
           res := { res with cov := addCov res.cov cov }
+        else zombie := false
       | none =>
         pendingOp := none
         if res.kOk then res := { res with kOk := false, kLine := ln, kDetail := "unparsable op" }
@@ -93,11 +103,26 @@ def runCase17 (lines : Array (Nat × String)) : CaseResult := Id.run do
           if kLive && obs != modelObs then
             res := { res with kOk := false, kLine := ln, kDetail := "want=" ++ modelObs ++ " got=" ++ obs }
             kLive := false
+          let before := g.fails.length
           g := O17.step g op obs
+          if g.fails.length > before && kLive && zombie && obs == "err addrinuse" then
+            explained := explained + (g.fails.length - before)
+            res := { res with cov := addCov res.cov ["zombiechild"] }
           pendingOp := none
         | none => pure ()
   res := { res with oFails := res.oFails ++ g.fails }
+  if !res.oFails.isEmpty && explained == res.oFails.length && res.kOk then
+    res := { res with pattern := "F-C17-1" }
   return res
+
+/-- Correspondence accepts either model variant: the code as it is (faithful) or with the
+    repair of F-C17-1 (fixed). -/
+def runCase17 (lines : Array (Nat × String)) : CaseResult × String :=
+  let r := runCase17V lines false
+  if r.kOk then (r, "faithful")
+  else
+    let r2 := runCase17V lines true
+    if r2.kOk then (r2, "fixed") else (r, "-")
 
 def parseOp19 (t : List String) : Option R19.Op :=
   match t with
@@ -232,10 +257,10 @@ def runCase19 (lines : Array (Nat × String)) : CaseResult := Id.run do
   res := { res with oFails := res.oFails ++ g.fails }
   return res
 
-def caseLine (n : String) (r : CaseResult) : String :=
+def caseLine (n : String) (r : CaseResult) (variant : String := "faithful") : String :=
   let detail := (if r.kOk then "" else "K:" ++ r.kDetail ++ " ") ++
     (match r.oFails with | [] => "" | f :: _ => "O:" ++ f ++ (if r.oFails.length > 1 then s!" (+{r.oFails.length - 1} more)" else ""))
-  s!"CASE {n} K={if r.kOk then "ok" else "mismatch"} O={if r.oFails.isEmpty then "ok" else "fail"} variant=faithful pattern={r.pattern} line={r.kLine} cov={if r.cov.isEmpty then "-" else ",".intercalate r.cov} detail={detail}"
+  s!"CASE {n} K={if r.kOk then "ok" else "mismatch"} O={if r.oFails.isEmpty then "ok" else "fail"} variant={variant} pattern={r.pattern} line={r.kLine} cov={if r.cov.isEmpty then "-" else ",".intercalate r.cov} detail={detail}"
 
 partial def main (args : List String) : IO UInt32 := do
   match args with
@@ -256,11 +281,11 @@ partial def main (args : List String) : IO UInt32 := do
         while j < lines.size && lines[j]! != "END" do
           body := body.push (j + 1, lines[j]!)
           j := j + 1
-        let r := if prop == "C17" then runCase17 body else runCase19 body
+        let (r, variant) := if prop == "C17" then runCase17 body else (runCase19 body, "faithful")
         cases := cases + 1
         if !r.kOk then km := km + 1
         if !r.oFails.isEmpty then ofl := ofl + 1
-        out.putStrLn (caseLine n r)
+        out.putStrLn (caseLine n r variant)
         i := j + 1
       else
         i := i + 1
